@@ -82,3 +82,18 @@ pub fn arg<'a>(args: &'a [String], name: &str) -> Option<&'a str> {
 pub fn flag(args: &[String], name: &str) -> bool {
     args.iter().any(|a| a == name)
 }
+
+/// root of the verification tree (data/contents.json lives below it); VERIF_ROOT overrides /verif so that a
+/// snapshot copy uses its own files
+pub fn verif_root() -> String {
+    std::env::var("VERIF_ROOT").unwrap_or_else(|_| "/verif".to_string())
+}
+
+pub fn contents_default() -> String {
+    format!("{}/data/contents.json", verif_root())
+}
+
+/// root of the repository under test (VERIF_REPO overrides /repo)
+pub fn repo_root() -> String {
+    std::env::var("VERIF_REPO").unwrap_or_else(|_| "/repo".to_string())
+}
